@@ -25,6 +25,13 @@
 (* supp(g) carries a letter of E anticommuting with g.  That is an Extend  *)
 (* step that stays inside E.  By induction E is reached from any of its    *)
 (* qubits.  TLC's fingerprint set merges the different orders.             *)
+(* CSS codes (every generator purely X-type or purely Z-type): the X part  *)
+(* and the Z part of a zero-syndrome operator each have zero syndrome, one *)
+(* of them is a non-trivial logical when the operator is, and neither is   *)
+(* heavier: the distance is attained by a one-letter operator.  The search *)
+(* for such a code therefore uses one letter per run (X or Z, fixed by the *)
+(* first step), which makes long thin lattices with d up to 9 affordable.  *)
+(* (C17_Brute cross-checks this on tiny CSS codes with all three letters.) *)
 (* The lemma is itself model-checked against unpruned enumeration          *)
 (* (C17_Brute.tla and the overstated-d self-test of the harness).          *)
 (***************************************************************************)
@@ -45,11 +52,18 @@ Violated(j, a) ==
 
 MinOf(S) == CHOOSE m \in S : \A t \in S : m <= t
 
+IsCSS == [j \in 1..NRecs |-> \A s \in DOMAIN Codes[j].stabs :
+                                Codes[j].stabs[s].x = {} \/ Codes[j].stabs[s].z = {}]
+\* letters a step may use: all three, or for a CSS code the letter already in use
+LettersFor(j, a) == IF ~IsCSS[j] THEN Letters
+                    ELSE IF a = IdOp THEN {"X", "Z"}
+                    ELSE IF a.z = {} THEN {"X"} ELSE {"Z"}
+
 Init == c \in 1..NRecs /\ cur = IdOp
 
 Start == /\ cur = IdOp
          /\ Recs[c].d >= 2
-         /\ \E q \in 0..(Codes[c].n - 1) : \E s \in Letters : cur' = Single(q, s)
+         /\ \E q \in 0..(Codes[c].n - 1) : \E s \in LettersFor(c, cur) : cur' = Single(q, s)
          /\ UNCHANGED c
 
 Extend == /\ cur # IdOp
@@ -57,7 +71,7 @@ Extend == /\ cur # IdOp
           /\ LET V == Violated(c, cur) IN
              /\ V # {}
              /\ LET g == Codes[c].stabs[MinOf(V)] IN
-                \E q \in Supp(g) \ Supp(cur) : \E s \in Letters :
+                \E q \in Supp(g) \ Supp(cur) : \E s \in LettersFor(c, cur) :
                     /\ Symp(Single(q, s), g) = 1
                     /\ cur' = Mul(cur, Single(q, s))
           /\ UNCHANGED c
